@@ -308,8 +308,11 @@ Section Rel2.
 
   Lemma safe_other_create : safe other_create.
   Proof.
-    intros t [H|H]; unfold other_create, is_kwlike; rewrite (kd _ _ K_ident H eq_refl), (kd _ _ "PROTO" H eq_refl), (kd _ _ "OR" H eq_refl); reflexivity.
+    intros t [H|H]; unfold other_create, is_kwlike; rewrite (kd _ _ K_ident H eq_refl), (kd _ _ "OR" H eq_refl); reflexivity.
   Qed.
+
+  Lemma safe_other_alter : safe other_alter.
+  Proof. intros t [H|H]; unfold other_alter, is_kwlike; rewrite (kd _ _ K_ident H eq_refl); reflexivity. Qed.
 
   (* ----- RENAME TABLE, GRANT, REVOKE ----- *)
   Notation reln := (reln p k1 k2).
@@ -388,6 +391,100 @@ Section Rel2.
     destruct (is_kwlike (cur ts1) "DELETE") eqn:KD; [|cbn; exact I].
     destruct (step_reln p k1 k2 T1 T2 _ _ _ _ SD R KD) as [E (m' & -> & R')]. rewrite <- E.
     cbn. split; [reflexivity|]. exists m'. split; [lia|exact R'].
+  Qed.
+
+  (* ----- dotted names with the measure; CREATE / ALTER PROTO BUNDLE, ALTER INDEX, ALTER SEARCH INDEX ----- *)
+  Lemma path_more_reln : forall n1 n2 m acc ts1 ts2, reln m ts1 ts2 -> m < n1 -> m < n2 ->
+    rreln 0 m (path_more n1 acc ts1) (path_more n2 acc ts2).
+  Proof.
+    induction n1 as [|n1 IH]; intros n2 m acc ts1 ts2 R L1 L2; [lia|]. destruct n2 as [|n2]; [lia|]. cbn [path_more].
+    pose proof (safe_kis "." eq_refl eq_refl) as SD. rewrite <- (test_reln p k1 k2 T1 T2 _ _ _ _ SD R).
+    destruct (kis (cur ts1) ".") eqn:K; [|apply ok_reln, R].
+    destruct (step_reln p k1 k2 T1 T2 _ _ _ _ SD R K) as [_ (m' & -> & R')].
+    pose proof (parse_ident_reln p k1 k2 T1 T2 _ _ _ R') as IT.
+    destruct (parse_ident (next ts1)) as [[x u1]| | |], (parse_ident (next ts2)) as [[y u2]| | |]; cbn [StmtProofs.rreln bind] in *; try contradiction; auto.
+    destruct IT as [-> (m2 & Lm & R2)].
+    apply (rreln_weaken p k1 k2 0 0 m2); [lia|lia|]. apply IH; [exact R2|lia|lia].
+  Qed.
+
+  Lemma parse_path_reln m ts1 ts2 : reln m ts1 ts2 -> rreln 1 m (parse_path ts1) (parse_path ts2).
+  Proof.
+    intros R. unfold parse_path. destruct (reln_length1 p k1 k2 T1 T2 _ _ _ R) as [L1 L2].
+    apply (rreln_weaken p k1 k2 (1 + 0) 1 m m); [lia|lia|].
+    chain 1 0; [apply (parse_ident_reln p k1 k2 T1 T2), R|]. intros i t1 t2 m' Lm R'. apply path_more_reln; [exact R'|lia|lia].
+  Qed.
+
+  Lemma named_type_reln m ts1 ts2 : reln m ts1 ts2 -> rreln 1 m (named_type ts1) (named_type ts2).
+  Proof.
+    intros R. unfold named_type. apply (rreln_weaken p k1 k2 (1 + 0) 1 m m); [lia|lia|].
+    chain 1 0; [apply parse_path_reln, R|]. intros ids t1 t2 m' _ R'. apply ok_reln, R'.
+  Qed.
+
+  Lemma bundle_types_reln m ts1 ts2 : reln m ts1 ts2 -> rreln 1 m (bundle_types ts1) (bundle_types ts2).
+  Proof.
+    intros R. unfold bundle_types. apply (rreln_weaken p k1 k2 (1 + (1 + (1 + 0))) 1 m m); [lia|lia|].
+    chain 1 (1 + (1 + 0)); [apply (expect_reln p k1 k2 T1 T2); [kisafe|exact R]|]. intros lp t1 t2 m1 _ R1.
+    chain 1 (1 + 0); [apply (comma_list_reln p k1 k2 T1 T2); [exact named_type_reln|exact R1]|]. intros tys u1 u2 m2 _ R2.
+    chain 1 0; [apply (expect_reln p k1 k2 T1 T2); [kisafe|exact R2]|]. intros rp v1 v2 m3 _ R3. apply ok_reln, R3.
+  Qed.
+
+  Lemma bundle_clause_reln kw ty m ts1 ts2 : reln m ts1 ts2 -> rreln 0 m (bundle_clause kw ty ts1) (bundle_clause kw ty ts2).
+  Proof.
+    intros R. unfold bundle_clause. pose proof (safe_kwlike kw) as SK. rewrite <- (test_reln p k1 k2 T1 T2 _ _ _ _ SK R).
+    destruct (is_kwlike (cur ts1) kw) eqn:K; [|apply ok_reln, R].
+    destruct (step_reln p k1 k2 T1 T2 _ _ _ _ SK R K) as [E (m' & -> & R')]. rewrite <- E.
+    apply (rreln_weaken p k1 k2 (1 + 0) 0 m' (S m')); [lia|lia|].
+    chain 1 0; [apply bundle_types_reln, R'|]. intros tys t1 t2 m1 _ R1. apply ok_reln, R1.
+  Qed.
+
+  Lemma parse_create_bundle_reln pos m ts1 ts2 : reln m ts1 ts2 -> rreln 0 m (parse_create_bundle pos ts1) (parse_create_bundle pos ts2).
+  Proof.
+    intros R. unfold parse_create_bundle. apply (rreln_weaken p k1 k2 (1 + (1 + (1 + 0))) 0 m m); [lia|lia|].
+    chain 1 (1 + (1 + 0)); [apply (expect_reln p k1 k2 T1 T2); [kisafe|exact R]|]. intros x t1 t2 m1 _ R1.
+    chain 1 (1 + 0); [apply (expect_kw_reln p k1 k2 T1 T2), R1|]. intros y u1 u2 m2 _ R2.
+    chain 1 0; [apply bundle_types_reln, R2|]. intros tys v1 v2 m3 _ R3. apply ok_reln, R3.
+  Qed.
+
+  Lemma parse_alter_bundle_reln pos m ts1 ts2 : reln m ts1 ts2 -> rreln 0 m (parse_alter_bundle pos ts1) (parse_alter_bundle pos ts2).
+  Proof.
+    intros R. unfold parse_alter_bundle. apply (rreln_weaken p k1 k2 (1 + (1 + (0 + (0 + (0 + 0))))) 0 m m); [lia|lia|].
+    chain 1 (1 + (0 + (0 + (0 + 0)))); [apply (expect_reln p k1 k2 T1 T2); [kisafe|exact R]|]. intros x t1 t2 m1 _ R1.
+    chain 1 (0 + (0 + (0 + 0))); [apply (expect_kw_reln p k1 k2 T1 T2), R1|]. intros b u1 u2 m2 _ R2.
+    chain 0 (0 + (0 + 0)); [apply bundle_clause_reln, R2|]. intros i v1 v2 m3 _ R3.
+    chain 0 (0 + 0); [apply bundle_clause_reln, R3|]. intros u w1 w2 m4 _ R4.
+    chain 0 0; [apply bundle_clause_reln, R4|]. intros d z1 z2 m5 _ R5. apply ok_reln, R5.
+  Qed.
+
+  Lemma index_alteration_reln m ts1 ts2 : reln m ts1 ts2 -> rreln 1 m (index_alteration ts1) (index_alteration ts2).
+  Proof.
+    intros R. unfold index_alteration.
+    assert (SA : safe (fun t => is_kwlike t "ADD" || is_kwlike t "DROP")).
+    { intros t Ht. rewrite (safe_kwlike "ADD" t Ht), (safe_kwlike "DROP" t Ht). reflexivity. }
+    rewrite <- (test_reln p k1 k2 T1 T2 _ _ _ _ SA R).
+    destruct (is_kwlike (cur ts1) "ADD" || is_kwlike (cur ts1) "DROP") eqn:K; [|cbn; exact I].
+    destruct (step_reln p k1 k2 T1 T2 _ _ _ _ SA R K) as [E (m' & -> & R')]. rewrite <- E.
+    apply (rreln_weaken p k1 k2 (1 + (1 + (1 + 0))) 1 m' (S m')); [lia|lia|].
+    chain 1 (1 + (1 + 0)); [apply (expect_kw_reln p k1 k2 T1 T2), R'|]. intros x t1 t2 m1 _ R1.
+    chain 1 (1 + 0); [apply (expect_kw_reln p k1 k2 T1 T2), R1|]. intros y u1 u2 m2 _ R2.
+    chain 1 0; [apply (parse_ident_reln p k1 k2 T1 T2), R2|]. intros i v1 v2 m3 _ R3. apply ok_reln, R3.
+  Qed.
+
+  Lemma parse_alter_index_reln pos m ts1 ts2 : reln m ts1 ts2 -> rreln 0 m (parse_alter_index pos ts1) (parse_alter_index pos ts2).
+  Proof.
+    intros R. unfold parse_alter_index. apply (rreln_weaken p k1 k2 (1 + (1 + (1 + 0))) 0 m m); [lia|lia|].
+    chain 1 (1 + (1 + 0)); [apply (expect_kw_reln p k1 k2 T1 T2), R|]. intros x t1 t2 m1 _ R1.
+    chain 1 (1 + 0); [apply parse_path_reln, R1|]. intros ids u1 u2 m2 _ R2.
+    chain 1 0; [apply index_alteration_reln, R2|]. intros a v1 v2 m3 _ R3. apply ok_reln, R3.
+  Qed.
+
+  Lemma parse_alter_search_index_reln pos m ts1 ts2 : reln m ts1 ts2 ->
+    rreln 0 m (parse_alter_search_index pos ts1) (parse_alter_search_index pos ts2).
+  Proof.
+    intros R. unfold parse_alter_search_index. apply (rreln_weaken p k1 k2 (1 + (1 + (1 + (1 + 0)))) 0 m m); [lia|lia|].
+    chain 1 (1 + (1 + (1 + 0))); [apply (expect_kw_reln p k1 k2 T1 T2), R|]. intros x t1 t2 m1 _ R1.
+    chain 1 (1 + (1 + 0)); [apply (expect_kw_reln p k1 k2 T1 T2), R1|]. intros y u1 u2 m2 _ R2.
+    chain 1 (1 + 0); [apply (parse_ident_reln p k1 k2 T1 T2), R2|]. intros i v1 v2 m3 _ R3.
+    chain 1 0; [apply index_alteration_reln, R3|]. intros a w1 w2 m4 _ R4. apply ok_reln, R4.
   Qed.
 
   (* look-ahead over three tokens (the tryParse... functions restore the lexer when the test fails) *)
@@ -469,7 +566,10 @@ Section Rel2.
       destruct (find_row create_rows (cur (next ts1))) as [r|] eqn:FR.
       - cbn [orel]. apply parse_row_rel; [|exact R1]. pose proof (find_row_in _ _ _ FR) as IN.
         pose proof create_rows_ok as RO. unfold rows_ok in RO. rewrite Forall_forall in RO. apply RO, IN.
-      - rewrite <- (test_rel p k1 k2 T1 T2 _ _ _ safe_other_create R1). destruct (other_create (cur (next ts1))); cbn; auto. }
+      - pose proof (safe_kis "PROTO" eq_refl eq_refl) as SP. rewrite <- (test_rel p k1 k2 T1 T2 _ _ _ SP R1).
+        destruct (kis (cur (next ts1)) "PROTO").
+        { destruct (rel_reln p k1 k2 _ _ R1) as [m1 RN1]. cbn [orel]. eapply rreln_rrel. apply parse_create_bundle_reln, RN1. }
+        rewrite <- (test_rel p k1 k2 T1 T2 _ _ _ safe_other_create R1). destruct (other_create (cur (next ts1))); cbn; auto. }
     pose proof (safe_kwlike "DROP") as SD. rewrite <- (test_rel p k1 k2 T1 T2 _ _ _ SD R).
     destruct (is_kwlike (cur ts1) "DROP") eqn:KD.
     { destruct (step_rel p k1 k2 T1 T2 _ _ _ SD R KD) as [EC R1]. rewrite <- EC.
@@ -495,8 +595,18 @@ Section Rel2.
     destruct (is_kwlike (cur ts1) "REVOKE") eqn:KV.
     { destruct (step_reln p k1 k2 T1 T2 _ _ _ _ SV RN KV) as [E (m' & -> & R')]. rewrite <- E. cbn [orel].
       eapply rreln_rrel. apply parse_grant_reln, R'. }
-    rewrite <- (test_rel p k1 k2 T1 T2 _ _ _ (safe_kwlike "ALTER") R).
-    destruct (is_kwlike (cur ts1) "ALTER"); cbn; auto.
+    pose proof (safe_kwlike "ALTER") as SA. rewrite <- (test_rel p k1 k2 T1 T2 _ _ _ SA R).
+    destruct (is_kwlike (cur ts1) "ALTER") eqn:KA; [|cbn; auto].
+    destruct (step_reln p k1 k2 T1 T2 _ _ _ _ SA RN KA) as [E (m' & -> & R')]. rewrite <- E.
+    pose proof (reln_rel p k1 k2 _ _ _ R') as R1. cbv zeta.
+    rewrite <- (test_rel p k1 k2 T1 T2 _ _ _ (safe_kis "PROTO" eq_refl eq_refl) R1).
+    destruct (kis (cur (next ts1)) "PROTO"); [cbn [orel]; eapply rreln_rrel; apply parse_alter_bundle_reln, R'|].
+    rewrite <- (test_rel p k1 k2 T1 T2 _ _ _ (safe_kwlike "INDEX") R1).
+    destruct (is_kwlike (cur (next ts1)) "INDEX"); [cbn [orel]; eapply rreln_rrel; apply parse_alter_index_reln, R'|].
+    rewrite <- (test_rel p k1 k2 T1 T2 _ _ _ (safe_kwlike "SEARCH") R1).
+    destruct (is_kwlike (cur (next ts1)) "SEARCH"); [cbn [orel]; eapply rreln_rrel; apply parse_alter_search_index_reln, R'|].
+    rewrite <- (test_rel p k1 k2 T1 T2 _ _ _ safe_other_alter R1).
+    destruct (other_alter (cur (next ts1))); cbn; auto.
   Qed.
 End Rel2.
 
@@ -616,8 +726,12 @@ Qed.
 Lemma ddl_body_node ts d r : ddl_body ts = Some (Ok (d, r)) -> exists ty fs, d = DNode ty fs.
 Proof.
   unfold ddl_body. destruct (kis (cur ts) "CREATE").
-  { destruct (find_row create_rows (cur (next ts))) as [rw|]; [|destruct (other_create (cur (next ts))); discriminate].
-    intros H. inversion H as [H1]. destruct (parse_row_node _ _ _ _ _ H1) as [fs ->]. eauto. }
+  { destruct (find_row create_rows (cur (next ts))) as [rw|].
+    - intros H. inversion H as [H1]. destruct (parse_row_node _ _ _ _ _ H1) as [fs ->]. eauto.
+    - destruct (kis (cur (next ts)) "PROTO"); [|destruct (other_create (cur (next ts))); discriminate].
+      unfold parse_create_bundle. destruct (expect "PROTO" (next ts)) as [[x a]| | |]; cbn [bind]; try discriminate.
+      destruct (expect_kw "BUNDLE" a) as [[y b]| | |]; cbn [bind]; try discriminate.
+      destruct (bundle_types b) as [[tys c]| | |]; cbn [bind]; try discriminate. intros H. inversion H; subst. eauto. }
   destruct (is_kwlike (cur ts) "DROP").
   { destruct (find_row drop_rows (cur (next ts))) as [rw|]; [|discriminate].
     intros H. inversion H as [H1]. destruct (parse_row_node _ _ _ _ _ H1) as [fs ->]. eauto. }
@@ -633,7 +747,23 @@ Proof.
     destruct (comma_list parse_ident c) as [[roles e]| | |]; cbn [bind]; try discriminate. intros H. inversion H; subst. eauto. }
   destruct (is_kwlike (cur ts) "GRANT"); [intros H; inversion H as [H1]; exact (G _ _ _ H1)|].
   destruct (is_kwlike (cur ts) "REVOKE"); [intros H; inversion H as [H1]; exact (G _ _ _ H1)|].
-  destruct (is_kwlike (cur ts) "ALTER"); discriminate.
+  destruct (is_kwlike (cur ts) "ALTER"); [|discriminate]. cbv zeta.
+  destruct (kis (cur (next ts)) "PROTO").
+  { unfold parse_alter_bundle. destruct (expect "PROTO" (next ts)) as [[x a]| | |]; cbn [bind]; try discriminate.
+    destruct (expect_kw "BUNDLE" a) as [[y b]| | |]; cbn [bind]; try discriminate.
+    destruct (bundle_clause "INSERT" "AlterProtoBundleInsert" b) as [[i c]| | |]; cbn [bind]; try discriminate.
+    destruct (bundle_clause "UPDATE" "AlterProtoBundleUpdate" c) as [[u e]| | |]; cbn [bind]; try discriminate.
+    destruct (bundle_clause "DELETE" "AlterProtoBundleDelete" e) as [[dl f]| | |]; cbn [bind]; try discriminate. intros H. inversion H; subst. eauto. }
+  destruct (is_kwlike (cur (next ts)) "INDEX").
+  { unfold parse_alter_index. destruct (expect_kw "INDEX" (next ts)) as [[x a]| | |]; cbn [bind]; try discriminate.
+    destruct (parse_path a) as [[ids b]| | |]; cbn [bind]; try discriminate.
+    destruct (index_alteration b) as [[al c]| | |]; cbn [bind]; try discriminate. intros H. inversion H; subst. eauto. }
+  destruct (is_kwlike (cur (next ts)) "SEARCH").
+  { unfold parse_alter_search_index. destruct (expect_kw "SEARCH" (next ts)) as [[x a]| | |]; cbn [bind]; try discriminate.
+    destruct (expect_kw "INDEX" a) as [[y b]| | |]; cbn [bind]; try discriminate.
+    destruct (parse_ident b) as [[i c]| | |]; cbn [bind]; try discriminate.
+    destruct (index_alteration c) as [[al e]| | |]; cbn [bind]; try discriminate. intros H. inversion H; subst. eauto. }
+  destruct (other_alter (cur (next ts))); discriminate.
 Qed.
 
 (* C09 on the family: no error exactly when the success path returned its node; otherwise one error and one Bad node *)
@@ -685,9 +815,10 @@ Qed.
 
 Theorem family_entry_points_agree ts :
   kis (cur ts) "CREATE" || is_kwlike (cur ts) "DROP" || is_kwlike (cur ts) "ANALYZE" || is_kwlike (cur ts) "RENAME"
-  || is_kwlike (cur ts) "GRANT" || is_kwlike (cur ts) "REVOKE" = true -> sp_stmt ts = sp_ddl ts.
+  || is_kwlike (cur ts) "GRANT" || is_kwlike (cur ts) "REVOKE" || is_kwlike (cur ts) "ALTER" = true -> sp_stmt ts = sp_ddl ts.
 Proof.
   intros H.
+  apply orb_true_iff in H as [H|AL]; [|apply (kwlike_head_agrees ts "ALTER" eq_refl eq_refl eq_refl AL); rewrite AL; rewrite ?orb_true_r; reflexivity].
   apply orb_true_iff in H as [H|V]; [|apply (kwlike_head_agrees ts "REVOKE" eq_refl eq_refl eq_refl V); rewrite V; rewrite ?orb_true_r; reflexivity].
   apply orb_true_iff in H as [H|G]; [|apply (kwlike_head_agrees ts "GRANT" eq_refl eq_refl eq_refl G); rewrite G; rewrite ?orb_true_r; reflexivity].
   apply orb_true_iff in H as [H|RN]; [|apply (kwlike_head_agrees ts "RENAME" eq_refl eq_refl eq_refl RN); rewrite RN; rewrite ?orb_true_r; reflexivity].
@@ -888,11 +1019,86 @@ Proof.
   pose proof (idents_nofuel c). destruct (comma_list parse_ident c) as [[l e]| | |]; cbn [bind]; congruence.
 Qed.
 
+Lemma path_more_le : forall n acc ts l r, path_more n acc ts = Ok (l, r) -> length r <= length ts.
+Proof.
+  induction n as [|n IH]; intros acc ts l r; cbn [path_more]; [discriminate|]. destruct (kis (cur ts) "."); [|intros H; inversion H; subst; lia].
+  destruct (parse_ident (next ts)) as [[i a]| | |] eqn:E; cbn [bind]; try discriminate.
+  intros H. apply IH in H. apply ident_shrinks in E as [L _]. pose proof (next_le ts). lia.
+Qed.
+
+Lemma parse_path_shrinks ts ids r : parse_path ts = Ok (ids, r) -> length r <= length ts /\ kis (cur ts) "," = false.
+Proof.
+  unfold parse_path. destruct (parse_ident ts) as [[i a]| | |] eqn:E; cbn [bind]; try discriminate.
+  intros H. apply path_more_le in H. apply ident_shrinks in E as [L NC]. split; [lia|exact NC].
+Qed.
+
+Lemma named_type_nofuel ts : named_type ts <> Fuel.
+Proof. unfold named_type. pose proof (parse_path_nofuel ts). destruct (parse_path ts) as [[ids a]| | |]; cbn [bind]; congruence. Qed.
+
+Lemma named_type_shrinks ts x r : named_type ts = Ok (x, r) -> length r <= length ts /\ kis (cur ts) "," = false.
+Proof.
+  unfold named_type. destruct (parse_path ts) as [[ids a]| | |] eqn:E; cbn [bind]; try discriminate. intros H. inversion H; subst.
+  exact (parse_path_shrinks _ _ _ E).
+Qed.
+
+Lemma bundle_types_nofuel ts : bundle_types ts <> Fuel.
+Proof.
+  unfold bundle_types. pose proof (expect_nofuel "(" ts). destruct (expect "(" ts) as [[lp a]| | |]; cbn [bind]; try congruence.
+  pose proof (comma_list_nofuel named_type named_type_nofuel named_type_shrinks a). destruct (comma_list named_type a) as [[tys b]| | |]; cbn [bind]; try congruence.
+  pose proof (expect_nofuel ")" b). destruct (expect ")" b) as [[rp c]| | |]; cbn [bind]; congruence.
+Qed.
+
+Lemma bundle_clause_nofuel kw ty ts : bundle_clause kw ty ts <> Fuel.
+Proof.
+  unfold bundle_clause. destruct (is_kwlike (cur ts) kw); [|discriminate].
+  pose proof (bundle_types_nofuel (next ts)). destruct (bundle_types (next ts)) as [[tys a]| | |]; cbn [bind]; congruence.
+Qed.
+
+Lemma parse_create_bundle_nofuel pos ts : parse_create_bundle pos ts <> Fuel.
+Proof.
+  unfold parse_create_bundle. pose proof (expect_nofuel "PROTO" ts). destruct (expect "PROTO" ts) as [[x a]| | |]; cbn [bind]; try congruence.
+  pose proof (expect_kw_nofuel "BUNDLE" a). destruct (expect_kw "BUNDLE" a) as [[y b]| | |]; cbn [bind]; try congruence.
+  pose proof (bundle_types_nofuel b). destruct (bundle_types b) as [[tys c]| | |]; cbn [bind]; congruence.
+Qed.
+
+Lemma parse_alter_bundle_nofuel pos ts : parse_alter_bundle pos ts <> Fuel.
+Proof.
+  unfold parse_alter_bundle. pose proof (expect_nofuel "PROTO" ts). destruct (expect "PROTO" ts) as [[x a]| | |]; cbn [bind]; try congruence.
+  pose proof (expect_kw_nofuel "BUNDLE" a). destruct (expect_kw "BUNDLE" a) as [[y b]| | |]; cbn [bind]; try congruence.
+  pose proof (bundle_clause_nofuel "INSERT" "AlterProtoBundleInsert" b). destruct (bundle_clause "INSERT" "AlterProtoBundleInsert" b) as [[i c]| | |]; cbn [bind]; try congruence.
+  pose proof (bundle_clause_nofuel "UPDATE" "AlterProtoBundleUpdate" c). destruct (bundle_clause "UPDATE" "AlterProtoBundleUpdate" c) as [[u e]| | |]; cbn [bind]; try congruence.
+  pose proof (bundle_clause_nofuel "DELETE" "AlterProtoBundleDelete" e). destruct (bundle_clause "DELETE" "AlterProtoBundleDelete" e) as [[d f]| | |]; cbn [bind]; congruence.
+Qed.
+
+Lemma index_alteration_nofuel ts : index_alteration ts <> Fuel.
+Proof.
+  unfold index_alteration. destruct (is_kwlike (cur ts) "ADD" || is_kwlike (cur ts) "DROP"); [|discriminate].
+  pose proof (expect_kw_nofuel "STORED" (next ts)). destruct (expect_kw "STORED" (next ts)) as [[x a]| | |]; cbn [bind]; try congruence.
+  pose proof (expect_kw_nofuel "COLUMN" a). destruct (expect_kw "COLUMN" a) as [[y b]| | |]; cbn [bind]; try congruence.
+  pose proof (parse_ident_nofuel b). destruct (parse_ident b) as [[i c]| | |]; cbn [bind]; congruence.
+Qed.
+
+Lemma parse_alter_index_nofuel pos ts : parse_alter_index pos ts <> Fuel.
+Proof.
+  unfold parse_alter_index. pose proof (expect_kw_nofuel "INDEX" ts). destruct (expect_kw "INDEX" ts) as [[x a]| | |]; cbn [bind]; try congruence.
+  pose proof (parse_path_nofuel a). destruct (parse_path a) as [[ids b]| | |]; cbn [bind]; try congruence.
+  pose proof (index_alteration_nofuel b). destruct (index_alteration b) as [[al c]| | |]; cbn [bind]; congruence.
+Qed.
+
+Lemma parse_alter_search_index_nofuel pos ts : parse_alter_search_index pos ts <> Fuel.
+Proof.
+  unfold parse_alter_search_index. pose proof (expect_kw_nofuel "SEARCH" ts). destruct (expect_kw "SEARCH" ts) as [[x a]| | |]; cbn [bind]; try congruence.
+  pose proof (expect_kw_nofuel "INDEX" a). destruct (expect_kw "INDEX" a) as [[y b]| | |]; cbn [bind]; try congruence.
+  pose proof (parse_ident_nofuel b). destruct (parse_ident b) as [[i c]| | |]; cbn [bind]; try congruence.
+  pose proof (index_alteration_nofuel c). destruct (index_alteration c) as [[al e]| | |]; cbn [bind]; congruence.
+Qed.
+
 Theorem ddl_body_nofuel ts : ddl_body ts <> Some Fuel.
 Proof.
   unfold ddl_body. destruct (kis (cur ts) "CREATE").
-  { destruct (find_row create_rows (cur (next ts))) as [r|]; [|destruct (other_create (cur (next ts))); discriminate].
-    intros H. inversion H as [H1]. exact (parse_row_nofuel _ _ _ H1). }
+  { destruct (find_row create_rows (cur (next ts))) as [r|]; [intros H; inversion H as [H1]; exact (parse_row_nofuel _ _ _ H1)|].
+    destruct (kis (cur (next ts)) "PROTO"); [intros H; inversion H as [H1]; exact (parse_create_bundle_nofuel _ _ H1)|].
+    destruct (other_create (cur (next ts))); discriminate. }
   destruct (is_kwlike (cur ts) "DROP").
   { destruct (find_row drop_rows (cur (next ts))) as [r|]; [|discriminate]. intros H. inversion H as [H1]. exact (parse_row_nofuel _ _ _ H1). }
   destruct (is_kwlike (cur ts) "ANALYZE").
@@ -900,5 +1106,9 @@ Proof.
   destruct (is_kwlike (cur ts) "RENAME"); [intros H; inversion H as [H1]; exact (parse_rename_nofuel _ _ H1)|].
   destruct (is_kwlike (cur ts) "GRANT"); [intros H; inversion H as [H1]; exact (parse_grant_nofuel _ _ _ H1)|].
   destruct (is_kwlike (cur ts) "REVOKE"); [intros H; inversion H as [H1]; exact (parse_grant_nofuel _ _ _ H1)|].
-  destruct (is_kwlike (cur ts) "ALTER"); discriminate.
+  destruct (is_kwlike (cur ts) "ALTER"); [|discriminate]. cbv zeta.
+  destruct (kis (cur (next ts)) "PROTO"); [intros H; inversion H as [H1]; exact (parse_alter_bundle_nofuel _ _ H1)|].
+  destruct (is_kwlike (cur (next ts)) "INDEX"); [intros H; inversion H as [H1]; exact (parse_alter_index_nofuel _ _ H1)|].
+  destruct (is_kwlike (cur (next ts)) "SEARCH"); [intros H; inversion H as [H1]; exact (parse_alter_search_index_nofuel _ _ H1)|].
+  destruct (other_alter (cur (next ts))); discriminate.
 Qed.
